@@ -10,7 +10,10 @@ TEMPLATES = [
     ['foreach', 'x', ':', 'a', 'NL', 'if', 'x', 'NL', 'break', 'NL', 'endif', 'NL', 'endforeach'],
     ['if', 'a', 'NL', 'foreach', 'x', ':', 'a', 'NL', 'endforeach', 'NL', 'endif'],
     ['if', 'a', 'NL', 'if', 'b', 'NL', 'endif', 'NL', 'else', 'NL', 'endif'],
-    ['a', '=', 'f', '(', "'''m\nn'''", ',', "f'x'", ')'], ['testcase', 'expect_error', '(', "'s'", ')', 'NL', 'endtestcase'],
+    ['a', '=', 'f', '(', "'''m\nn'''", ',', "f'x'", ')'],
+    # escape sequences in every kind of string literal (the printer must reproduce the SOURCE spelling)
+    ['a', '=', "f'it\\'s @x@'"], ['a', '=', "'q\\\\n\\t\\''"], ['a', '=', "f'a\\tb\\\\c\\x41'"], ['f', '(', "f'''m\\t\nn'''", ',', "'''r\\'s'''", ')'],
+    ['a', '=', "'\\d\\N{DIGIT ONE}\\101'"], ['a', '=', "f'@x@\\n'", '+', "'\\u00e9'"], ['testcase', 'expect_error', '(', "'s'", ')', 'NL', 'endtestcase'],
 ]
 TRIVIA = ['', ' ', '  ', '\\\n', ' \\\n ', '\t']
 NLS = ['\n', ' ', '\n\n', ' \n', '#c\n', ' #c\n ', '\n  ']
